@@ -669,6 +669,18 @@ class Interp:
             elif isinstance(t, ast.Subscript):
                 o = self.eval(t.value, env, globs)
                 idx = self.eval_index(t.slice, env, globs)
+                if isinstance(o, (SSeq, bytearray)) and isinstance(idx, slice):
+                    # del buf[a:b] on a bytearray held as an (immutable) sequence value: rebind the holder
+                    s0 = o if isinstance(o, SSeq) else SSeq(core.seq_term(bytes(o)), "bytes")
+                    if isinstance(o, bytearray) and not any(is_sym(x) for x in (idx.start, idx.stop)):
+                        del o[idx]
+                    else:
+                        n = z3.Length(s0.term)
+                        lo, ln = core.slice_bounds(idx, n)
+                        new = core._seq_value(z3.Concat(z3.SubSeq(s0.term, 0, lo), z3.SubSeq(s0.term, lo + ln, n - lo - ln)),
+                                              "bytes", s0.ascii)
+                        self.assign(_as_store(t.value), new, env, globs)
+                    continue
                 self.del_item(o, idx, t, env, globs)
             else:
                 raise Unsupported("del target")
@@ -1715,6 +1727,13 @@ class SymRange(SymIter):
 
     def at(self, i):
         return self.start + i * self.step
+
+
+def _as_store(t):
+    import copy
+    n = copy.copy(t)
+    n.ctx = ast.Store()
+    return n
 
 
 def _as_load(t):
